@@ -115,11 +115,12 @@ OrderAt(c) == IF Par(c) = <<>> THEN <<c>>
 (* Audit fact semantics.  A fact state is [seq, k] with k = 0 (absent) or the command that
    last set it.  `Apply` returns the unchanged state when the command is rejected.          *)
 EmptyFacts == [seq |-> <<>>, k |-> 0]
-Rejects(f, c) == dag[c].op = "x" /\ f.k # 0
-Apply(f, c) ==
-  IF Rejects(f, c) THEN f
+ApplyOp(f, c, o) ==
+  IF o = "x" /\ f.k # 0 THEN f
   ELSE [seq |-> Append(f.seq, c),
-        k   |-> CASE dag[c].op = "s" -> c [] dag[c].op = "x" -> c [] dag[c].op = "d" -> 0 [] OTHER -> f.k]
+        k   |-> CASE o = "s" -> c [] o = "x" -> c [] o = "d" -> 0 [] OTHER -> f.k]
+Rejects(f, c) == dag[c].op = "x" /\ f.k # 0
+Apply(f, c) == ApplyOp(f, c, dag[c].op)
 RECURSIVE ApplyAll(_, _)
 ApplyAll(f, s) == IF s = <<>> THEN f ELSE ApplyAll(Apply(f, Head(s)), Tail(s))
 
